@@ -2,6 +2,7 @@
 from __future__ import annotations
 import re
 
+MICRO = ('u', 'μ', 'µ')
 NUM = re.compile(r'^(-?)(\d+)(?:\.(\d+))?(?:e(-?\d+))?$')
 
 
@@ -19,7 +20,9 @@ def parse_float_text(text: str, unit: str, prefixes: dict[int, str] | None):
         return {'inf': True, 'osgn': -1 if t.startswith('-') else 1, 'digits': 0, 'ndec': 0, 'oexp': 0}
     pexp = 0
     if prefixes:
-        for e, p in prefixes.items():
+        # the three spellings of the SI prefix micro are the same prefix
+        cands = [(e, q) for e, p in prefixes.items() for q in (MICRO if p in MICRO else (p,))]
+        for e, p in cands:
             if p and t.endswith(p) and not t[:-len(p)].endswith('e') and NUM.match(t[:-len(p)]):
                 pexp = e
                 t = t[:-len(p)]
